@@ -8,34 +8,37 @@ import LitexProofs.Packet.FifoQueue
 namespace Litex.Packet
 open Litex.Stream Litex.Stream.Elem
 
-/-- The queue pairings in which `source.valid` (param queue readable) implies that the payload queue is
-    readable.  Excluded: a `SyncFIFOBuffered` payload queue (readable two edges after the write) next to a
+/-- The queue pairings in which a readable param queue implies a readable payload queue (there the term
+    `& payload.source.valid` of `source.valid` changes nothing).  Excluded: a `SyncFIFOBuffered` payload queue (readable two edges after the write) next to a
     param queue that is readable one edge after the write (`PipeValid`, fwft FIFO). -/
 def kindsOk (kp kq : QKind) : Prop := kp ≠ .bfifo ∨ kq = .bfifo ∨ kq = .never
 
 instance (kp kq : QKind) : Decidable (kindsOk kp kq) := by unfold kindsOk; infer_instance
 
 /-- The history relation (same shape as `pfRel` / `pfbRel`): the queues hold exactly the accepted, not yet
-    delivered beats `a2`, `source.valid` implies a readable payload queue, and whatever is accepted in the
+    delivered beats `a2`, for the pairings `kindsOk` a readable param queue implies a readable payload queue,
+    and whatever is accepted in the
     future (`ext`), the specification for everything accepted is what has been delivered followed by the
     specification for `a2 ++ ext`. -/
 def pfaRel (kp kq : QKind) (s : PFAState) (a d : List (Tok PBeat)) : Prop :=
   ∃ a2, s.pay.stored kp = a2.map payOf ∧ s.par.stored kq = paramsOf a2 ∧
-    (s.par.readable kq = true → s.pay.readable kp = true) ∧
+    (kindsOk kp kq → s.par.readable kq = true → s.pay.readable kp = true) ∧
     ∀ ext, annT (a ++ ext) = d ++ annT (a2 ++ ext)
 
+/-- `source.valid`. -/
+def pfaSv (kp kq : QKind) (s : PFAState) : Bool := s.par.readable kq && s.pay.readable kp
 /-- `payload.source.ready`. -/
-def pfaRePay (kq : QKind) (s : PFAState) (r : Bool) : Bool := s.par.readable kq && r
+def pfaRePay (kp kq : QKind) (s : PFAState) (r : Bool) : Bool := pfaSv kp kq s && r
 /-- `param.source.ready`. -/
-def pfaRePar (kp kq : QKind) (s : PFAState) (r : Bool) : Bool := s.par.readable kq && (s.pay.dout kp).2 && r
+def pfaRePar (kp kq : QKind) (s : PFAState) (r : Bool) : Bool := pfaSv kp kq s && (s.pay.dout kp).2 && r
 /-- `payload.sink.ready`. -/
-def pfaWp (kp kq : QKind) (pd : Nat) (s : PFAState) (r : Bool) : Bool := s.pay.writable kp pd (pfaRePay kq s r)
+def pfaWp (kp kq : QKind) (pd : Nat) (s : PFAState) (r : Bool) : Bool := s.pay.writable kp pd (pfaRePay kp kq s r)
 /-- `param.sink.ready`. -/
 def pfaWq (kp kq : QKind) (qd : Nat) (s : PFAState) (r : Bool) : Bool := s.par.writable kq qd (pfaRePar kp kq s r)
 
 theorem pfa_step_pay (kp kq : QKind) (pd qd : Nat) (s : PFAState) (i : In PBeat) :
     ((packetFifoK kp kq pd qd).step s i).pay =
-      s.pay.next kp pd (i.valid && pfaWq kp kq qd s i.ready) (payOf i.tok) (pfaRePay kq s i.ready) := rfl
+      s.pay.next kp pd (i.valid && pfaWq kp kq qd s i.ready) (payOf i.tok) (pfaRePay kp kq s i.ready) := rfl
 
 theorem pfa_step_par (kp kq : QKind) (pd qd : Nat) (s : PFAState) (i : In PBeat) :
     ((packetFifoK kp kq pd qd).step s i).par =
@@ -48,7 +51,7 @@ theorem pfa_accNow (kp kq : QKind) (pd qd : Nat) (s : PFAState) (i : In PBeat) :
 
 theorem pfa_delNow (kp kq : QKind) (pd qd : Nat) (s : PFAState) (i : In PBeat) :
     (packetFifoK kp kq pd qd).delNow s i =
-      if (s.par.readable kq && i.ready) then
+      if (pfaSv kp kq s && i.ready) then
         [{ data := { data := (s.pay.dout kp).1, param := s.par.dout kq }, first := false,
            last := (s.pay.dout kp).2 }]
       else [] := rfl
@@ -57,7 +60,7 @@ theorem pfa_out_ready (kp kq : QKind) (pd qd : Nat) (s : PFAState) (i : In PBeat
     ((packetFifoK kp kq pd qd).out s i).ready = (pfaWp kp kq pd s i.ready && pfaWq kp kq qd s i.ready) := rfl
 
 theorem pfa_out_valid (kp kq : QKind) (pd qd : Nat) (s : PFAState) (i : In PBeat) :
-    ((packetFifoK kp kq pd qd).out s i).valid = s.par.readable kq := rfl
+    ((packetFifoK kp kq pd qd).out s i).valid = pfaSv kp kq s := rfl
 
 theorem paramsOf_ne_nil' {l : List (Tok PBeat)} (h : paramsOf l ≠ []) : l ≠ [] := by
   intro hl; subst hl; exact h rfl
@@ -90,40 +93,38 @@ theorem pfa_del_half (a d a2 : List (Tok PBeat)) (hext : ∀ ext, annT (a ++ ext
         simp only [List.cons_append] at hn
         simp [annT, hn, payOf]
 
-theorem packetFifoK_step (kp kq : QKind) (pd qd : Nat) (hk : kindsOk kp kq) (s : PFAState)
+theorem packetFifoK_step (kp kq : QKind) (pd qd : Nat) (s : PFAState)
     (a d : List (Tok PBeat)) (i : In PBeat) (h : pfaRel kp kq s a d) :
     pfaRel kp kq ((packetFifoK kp kq pd qd).step s i) (a ++ (packetFifoK kp kq pd qd).accNow s i)
       (d ++ (packetFifoK kp kq pd qd).delNow s i) := by
   obtain ⟨a2, hpay, hpar, hinv, hext⟩ := h
   -- the read side
-  have hpopPay : s.pay.popped kp (pfaRePay kq s i.ready) =
-      if (s.par.readable kq && i.ready) then (a2.map payOf).tail else a2.map payOf := by
-    unfold QSt.popped pfaRePay
+  have hpopPay : s.pay.popped kp (pfaRePay kp kq s i.ready) =
+      if (pfaSv kp kq s && i.ready) then (a2.map payOf).tail else a2.map payOf := by
+    unfold QSt.popped pfaRePay pfaSv
     rw [hpay]
-    cases hsv : s.par.readable kq
-    · simp
-    · simp [hinv hsv]
+    cases s.par.readable kq <;> cases s.pay.readable kp <;> cases i.ready <;> rfl
   have hpopPar : s.par.popped kq (pfaRePar kp kq s i.ready) =
-      if ((s.par.readable kq && i.ready) && (s.pay.dout kp).2) then (paramsOf a2).tail else paramsOf a2 := by
-    unfold QSt.popped pfaRePar
+      if ((pfaSv kp kq s && i.ready) && (s.pay.dout kp).2) then (paramsOf a2).tail else paramsOf a2 := by
+    unfold QSt.popped pfaRePar pfaSv
     rw [hpar]
-    cases s.par.readable kq <;> cases i.ready <;> cases (s.pay.dout kp).2 <;> rfl
-  obtain ⟨a3, h1, h2, h3⟩ := pfa_del_half a d a2 hext (s.par.readable kq && i.ready) (s.pay.dout kp)
+    cases s.par.readable kq <;> cases s.pay.readable kp <;> cases i.ready <;> cases (s.pay.dout kp).2 <;> rfl
+  obtain ⟨a3, h1, h2, h3⟩ := pfa_del_half a d a2 hext (pfaSv kp kq s && i.ready) (s.pay.dout kp)
     (s.par.dout kq)
     (fun hpop => by
-      simp only [Bool.and_eq_true] at hpop
-      rw [← hpay]; exact QSt.stored_readable kp s.pay (hinv hpop.1))
+      simp only [pfaSv, Bool.and_eq_true] at hpop
+      rw [← hpay]; exact QSt.stored_readable kp s.pay hpop.1.2)
     (fun hpop => by
-      simp only [Bool.and_eq_true] at hpop
-      rw [← hpar]; exact QSt.stored_readable kq s.par hpop.1)
+      simp only [pfaSv, Bool.and_eq_true] at hpop
+      rw [← hpar]; exact QSt.stored_readable kq s.par hpop.1.1)
   rw [← hpopPay] at h1
   rw [← hpopPar] at h2
   rw [← pfa_delNow kp kq pd qd s i] at h3
   -- the write side
-  have epay : (i.valid && pfaWq kp kq qd s i.ready && s.pay.writable kp pd (pfaRePay kq s i.ready))
+  have epay : (i.valid && pfaWq kp kq qd s i.ready && s.pay.writable kp pd (pfaRePay kp kq s i.ready))
       = (i.valid && (pfaWp kp kq pd s i.ready && pfaWq kp kq qd s i.ready)) := by
     unfold pfaWp
-    cases i.valid <;> cases pfaWq kp kq qd s i.ready <;> cases s.pay.writable kp pd (pfaRePay kq s i.ready) <;> rfl
+    cases i.valid <;> cases pfaWq kp kq qd s i.ready <;> cases s.pay.writable kp pd (pfaRePay kp kq s i.ready) <;> rfl
   have epar : (i.valid && i.tok.last && pfaWp kp kq pd s i.ready &&
         s.par.writable kq qd (pfaRePar kp kq s i.ready))
       = (i.valid && (pfaWp kp kq pd s i.ready && pfaWq kp kq qd s i.ready) && i.tok.last) := by
@@ -131,7 +132,7 @@ theorem packetFifoK_step (kp kq : QKind) (pd qd : Nat) (hk : kindsOk kp kq) (s :
     cases i.valid <;> cases i.tok.last <;> cases pfaWp kp kq pd s i.ready <;>
       cases s.par.writable kq qd (pfaRePar kp kq s i.ready) <;> rfl
   have hpay' := QSt.stored_next kp pd s.pay (i.valid && pfaWq kp kq qd s i.ready) (payOf i.tok)
-    (pfaRePay kq s i.ready)
+    (pfaRePay kp kq s i.ready)
   have hpar' := QSt.stored_next kq qd s.par (i.valid && i.tok.last && pfaWp kp kq pd s i.ready)
     i.tok.data.param (pfaRePar kp kq s i.ready)
   rw [← pfa_step_pay kp kq pd qd s i, epay, h1] at hpay'
@@ -156,8 +157,8 @@ theorem packetFifoK_step (kp kq : QKind) (pd qd : Nat) (hk : kindsOk kp kq) (s :
         simpa [List.append_assoc] using h3 ([i.tok] ++ ext)
   obtain ⟨a2', hp1, hp2, ⟨m, hm⟩, hp3⟩ := hrel
   refine ⟨a2', hp1, hp2, ?_, hp3⟩
-  -- `source.valid` implies a readable payload queue
-  intro hv
+  -- a readable param queue implies a readable payload queue
+  intro hk hv
   have hne : a2' ≠ [] := paramsOf_ne_nil' (by rw [← hp2]; exact QSt.stored_ne_nil_of_readable kq _ hv)
   by_cases hkp : kp = .bfifo
   · rcases hk with hk | hk | hk
